@@ -165,6 +165,8 @@ func (t *Tokenizer) Reset() {
 	}
 
 	t.line = 0
+	t.colCacheValid = false
+	t.colCacheLineStart, t.colCacheIndex, t.colCacheColumn = 0, 0, 0
 
 	// Don't reset keywords as they're constant
 	t.logger = nil
